@@ -6,7 +6,7 @@
  * --mode=episodes   (lfht_conc_ep.h)  many short histories: 2-4 workers x 1-6 operations on 2-4 HOT keys
  *                   (colliding hashes) next to RESIDENT nodes that are never touched during an episode,
  *                   plus a reader thread doing full first/next traversals and lookups of residents.
- *                   Per-key sub-histories are checked against a multiset-of-node-ids model with lin.c;
+ *                   Per-key sub-histories are checked against a multiset-of-node-ids model (lfht_conc_lin.h);
  *                   duplicate walks and traversals against presence intervals; residents must be seen
  *                   exactly once by every traversal and found by every lookup.
  *                   --discipline=unique restricts the updates to add_unique/add_replace/replace/del (C06).
@@ -14,6 +14,11 @@
  *                   discipline, walkers asserting "never two nodes with one key in one walk", continuous
  *                   presence of a replace-only key, ownership counter per node life, conservation.
  * --mode=rounds     (lfht_conc_uniq.h) C06 winner accounting: K threads add_unique the same absent key.
+ * --mode=finding-addu (lfht_conc_ep.h) drives on purpose the interleaving of the known C05 finding
+ *                   "add_unique / add_replace versus plain add of the same key" (findings/c05_addu_dup.c).
+ *
+ * Linearizability search: lfht_conc_lin.h (private: program order of one thread is exact, the TSC margin
+ * only applies between threads); lin.c is only used to print histories.
  *
  * Resize running concurrently (--resize=): none | explicit (resizer thread cycling cds_lfht_resize over
  * 1..64..1, powers of two and not) | auto (CDS_LFHT_AUTO_RESIZE, chain growth) | acct (AUTO_RESIZE |
@@ -478,9 +483,11 @@ static void *resizer_main(void *arg)
 		if (__atomic_load_n(&rz.stop, __ATOMIC_SEQ_CST))
 			break;
 		if (__atomic_load_n(&rz.pause, __ATOMIC_SEQ_CST)) {
+			/* two-way handshake: parked until the controller withdraws the request, then say so */
 			__atomic_store_n(&rz.paused, 1, __ATOMIC_SEQ_CST);
 			while (__atomic_load_n(&rz.pause, __ATOMIC_SEQ_CST) && !__atomic_load_n(&rz.stop, __ATOMIC_SEQ_CST))
 				usleep(20);
+			__atomic_store_n(&rz.paused, 0, __ATOMIC_SEQ_CST);
 			continue;
 		}
 		struct cds_lfht *ht = cur_ht();
@@ -561,12 +568,19 @@ static void resizer_pause(void)
 	vp_rcu_online();
 }
 
+/* returns once the resizer has left its parking loop (so that a later pause request cannot see a stale "paused") */
 static void resizer_resume(void)
 {
 	if (!rz.started)
 		return;
-	__atomic_store_n(&rz.paused, 0, __ATOMIC_SEQ_CST);
+	vp_rcu_offline();
+	/* first call: the thread starts with the request pending and may not have parked yet */
+	while (!__atomic_load_n(&rz.paused, __ATOMIC_SEQ_CST))
+		usleep(10);
 	__atomic_store_n(&rz.pause, 0, __ATOMIC_SEQ_CST);
+	while (__atomic_load_n(&rz.paused, __ATOMIC_SEQ_CST))
+		usleep(10);
+	vp_rcu_online();
 }
 
 static void resizer_stop(void)
